@@ -140,7 +140,12 @@ fn case(tier: Tier, rng: &mut Rng, rep: &mut Report) {
     let mut p = NetParams::default();
     p.max_v = if rng.chance(0.1) { if tier.thorough { 1500 } else { 300 } } else { 30 };
     p.metric = false;
-    let net = gen_net(rng, &p);
+    let mut net = gen_net(rng, &p);
+    // one network in thirty has no edge at all (isolated vertices only: the edge file holds its header and nothing else)
+    if rng.fork(0xC150).chance(1.0 / 30.0) {
+        net.edges.clear();
+        rep.count("networks_without_edges", 1);
+    }
     let gzip = rng.chance(0.4);
     let perm = rng.below(4);
     let extra = rng.chance(0.5);
@@ -201,6 +206,9 @@ fn case(tier: Tier, rng: &mut Rng, rep: &mut Report) {
     }
     rep.seen("file_modes", format!("{mode}|layout{perm}|{}", if extra { "extra_cols" } else { "min_cols" }));
     // (b) through the application and its bindings, plus row alignment of the per-edge tables (G8)
+    if net.ne() == 0 {
+        return;
+    }
     if net.ne() <= 400 && rng.chance(0.5) {
         let mut wp = WorldParams::default();
         wp.allow_turn_delay = true;
